@@ -107,6 +107,20 @@ int gen_matrix(const case_t *c, rng_t *r, csc_t *A)
             else { if (j > 0) P(j - 1, j) = 1; }
             if (rng_u01(r) < cdbl(c, "extra", 0.0)) { int_t i = rng_int(r, n); if (!P(i, j)) P(i, j) = 1; }
         }
+    } else if (!strcmp(fam, "ring")) {
+        /* a symmetric tridiagonal chain coupled to a periodic ring that carries, besides the symmetric neighbour coupling, a
+           one-sided (upwind) entry A(i, i-k around the ring): structurally unsymmetric although every row holds exactly as
+           many entries as the column of the same index (circulant-like patterns; nothing one-sided near a border) */
+        int_t n1 = cint(c, "chainlen", n / 2); if (n1 < 0) n1 = 0; if (n1 > n - 3) n1 = n > 3 ? n - 3 : 0;
+        int_t n2 = n - n1, k = cint(c, "ringk", 2); if (n2 > 0) { k %= n2; if (k < 0) k += n2; }
+        for (int_t j = 0; j < n1; ++j) { P(j, j) = 2; if (j + 1 < n1) { P(j + 1, j) = 1; P(j, j + 1) = 1; } }
+        for (int_t t = 0; t < n2; ++t) {
+            int_t i = n1 + t;
+            P(i, i) = 2;
+            if (n2 > 1) { P(i, n1 + (t + 1) % n2) = 1; P(n1 + (t + 1) % n2, i) = 1; }
+            if (n2 > 2 && k > 1) P(i, n1 + (t - k + n2) % n2) = 1;
+        }
+        if (n1 > 0 && n2 > 0) { P(n1 - 1, n1) = 1; P(n1, n1 - 1) = 1; }
     } else if (!strcmp(fam, "star") || !strcmp(fam, "forest")) {
         /* block diagonal (blocks of size bs, dense-ish or chains) + coupling last column(s) and row(s) */
         int_t bs = cint(c, "bs", 3); if (bs < 1) bs = 1;
